@@ -53,7 +53,7 @@ var curated = map[string][]string{
 	"S-req":  {`{items {summary}}`, `{items {id summary volume}}`, `{boxes {content {summary}}}`, `{item(id: "i1") {summary shipping}}`},
 }
 
-var faultKinds = []string{"transport-error", "http-500-empty", "http-200-empty", "http-200-nonjson", "http-502-html", "http-500-json-other", "http-200-json-other", "errors-without-data", "entities-one-short", "entities-one-long", "entities-empty"}
+var faultKinds = []string{"transport-error", "http-500-empty", "http-200-empty", "http-200-nonjson", "http-502-html", "http-502-html-quotes", "http-500-truncated-json", "http-500-json-other", "http-200-json-other", "errors-without-data", "entities-one-short", "entities-one-long", "entities-empty"}
 
 // partialKind: an entity request answers with data AND an error whose path
 // points at one field of the first entity, which is null ("this subgraph could
@@ -514,6 +514,14 @@ func judgeFault(f *family, lab *fedlab.Lab, q string, b *baseline, F []string, k
 			// a proxy in front of the subgraph answers (status fallback: non-2xx, not JSON)
 			applicable = true
 			return fedlab.JSONResponse(502, "<html><body>502 Bad Gateway</body></html>", nil), nil, true
+		case "http-502-html-quotes":
+			// the same with characters that need escaping wherever the body is quoted
+			applicable = true
+			return fedlab.JSONResponse(502, "<html lang=\"en\"><body class='x'>Bad \\ Gateway\n\t</body></html>", nil), nil, true
+		case "http-500-truncated-json":
+			// a JSON document cut off in the middle (connection dropped by a proxy)
+			applicable = true
+			return fedlab.JSONResponse(500, `{"data":{"_ent`, nil), nil, true
 		case "http-500-json-other":
 			// JSON with neither data nor errors and a non-2xx status
 			applicable = true
